@@ -470,6 +470,23 @@ static void sc_shmbuffer_small_segment(void) {
 	}
 }
 
+/* several threads make the first use of one fresh TLS key at the same moment (the key's native part is created lazily) */
+static PUThreadKey *fu_key; static volatile int fu_go, fu_ready;
+static ppointer fu_fn(ppointer a) { (void)a; __sync_fetch_and_add(&fu_ready, 1); while (!__atomic_load_n(&fu_go, __ATOMIC_ACQUIRE)) ; (void)p_uthread_get_local(fu_key); p_uthread_set_local(fu_key, (ppointer)(uintptr_t)0x70); return NULL; }
+static void sc_tls_first_use(void) {
+	int round, i;
+	for (round = 0; round < 6; round++) {
+		PUThread *t[4]; int n = 0, spins;
+		fu_key = p_uthread_local_new(NULL); if (!fu_key) return;
+		fu_go = 0; fu_ready = 0;
+		for (i = 0; i < 4; i++) { t[n] = p_uthread_create(fu_fn, NULL, TRUE, NULL); if (t[n]) n++; }
+		for (spins = 0; spins < 2000000 && fu_ready < n; spins++) if ((spins & 1023) == 1023) usleep(50);
+		__atomic_store_n(&fu_go, 1, __ATOMIC_RELEASE);
+		for (i = 0; i < n; i++) { (void)p_uthread_join(t[i]); p_uthread_unref(t[i]); }
+		p_uthread_local_free(fu_key); fu_key = NULL;
+	}
+}
+
 static int in_reinit;
 static void sc_init_shutdown(void) { PMemVTable vt = va_vtable(); in_reinit = 1; p_libsys_shutdown(); p_libsys_init_full(&vt); }
 
@@ -479,7 +496,7 @@ static struct { const char *name; void (*fn)(void); } SC[] = {
 	{ "sockaddr", sc_sockaddr }, { "socket_tcp", sc_socket_tcp }, { "socket_udp", sc_socket_udp }, { "thread", sc_thread }, { "thread_foreign", sc_thread_foreign },
 	{ "locks", sc_locks }, { "profiler", sc_profiler }, { "libloader", sc_libloader }, { "file", sc_file },
 	{ "sock_refused", sc_sock_refused }, { "sock_timeouts", sc_sock_timeouts }, { "sock_bind_used", sc_sock_bind_used }, { "ipc_multi", sc_ipc_multi }, { "threads_tls", sc_threads_tls },
-	{ "sock_fromfd", sc_sock_fromfd }, { "mem_mmap", sc_mem_mmap }, { "shmbuffer_small_segment", sc_shmbuffer_small_segment },
+	{ "sock_fromfd", sc_sock_fromfd }, { "mem_mmap", sc_mem_mmap }, { "shmbuffer_small_segment", sc_shmbuffer_small_segment }, { "tls_first_use", sc_tls_first_use },
 	{ "init_shutdown", sc_init_shutdown },
 };
 #define NSC ((int)(sizeof SC / sizeof SC[0]))
